@@ -54,7 +54,8 @@ print('instrumentation self-check: %d repository tests pass on the instrumented 
 "
   SELF="-selfcheck $scratch/selfcheck.json"
 fi
-if [ "$PROP" = "C12" ]; then
+if [ "$PROP" = "C12" ] || [ "$PROP" = "C03" ] || [ "$PROP" = "C14" ]; then
+  # (C12: options change nothing; C03: the server goes away with a call outstanding; C14: ErrDial while it is down)
   # real networks, both tiers (free-running, uninstrumented build of the same tree): tcp, unix, http, ws, inproc x TLS x header
   # encoders x body codecs x poll x buffer sizes; every configuration in its own subprocess
   cp /repo/go.sum $V/real/go.sum 2>/dev/null
